@@ -341,47 +341,55 @@ impl<S: WebSocket, T: TimestampProvider> Task<S, T> {
         // If it is `false`, then we reached here because the peer is now not interested
         // in our connection anymore, and we should just mind our own business and serve the connections
         // on our end.
-        if should_drain_msg_rx {
-            // Since we've called `close` on `tx_frame_rx`, this loop will
-            // terminate once existing frames are processed.
-            while let Some(message) = tx_msg_rx.recv().await {
-                debug!("sending remaining frame after mux drop");
-                let r = poll_fn(|cx| self.ws.lock().poll_ready_unpin(cx))
-                    .await
-                    .and_then(|()| self.ws.lock().start_send_unpin(message));
-                if let Err(e) = r {
-                    warn!("Failed to send remaining frame after mux drop: {e}");
-                    // Don't keep trying to send frames after an error
-                    break;
+        let flush_and_close_sink = async {
+            if should_drain_msg_rx {
+                // Since we've called `close` on `tx_frame_rx`, this loop will
+                // terminate once existing frames are processed.
+                while let Some(message) = tx_msg_rx.recv().await {
+                    debug!("sending remaining frame after mux drop");
+                    let r = poll_fn(|cx| self.ws.lock().poll_ready_unpin(cx))
+                        .await
+                        .and_then(|()| self.ws.lock().start_send_unpin(message));
+                    if let Err(e) = r {
+                        warn!("Failed to send remaining frame after mux drop: {e}");
+                        // Don't keep trying to send frames after an error
+                        break;
+                    }
+                    // will be flushed in `ws.close()` anyways
+                    // ws.flush().await.ok();
                 }
-                // will be flushed in `ws.close()` anyways
-                // ws.flush().await.ok();
             }
-        }
-        // This will flush the remaining frames already queued for sending as well
-        if should_close_sink {
-            poll_fn(|cx| self.ws.lock().poll_close_unpin(cx)).await.ok();
-        } else {
-            // The connection failed. The transport may never be able to flush again
-            // (e.g. the peer stopped reading), so closing it is best-effort: try once
-            // and go on to release everything that is pending on our side.
-            poll_fn(|cx| {
-                let _ = self.ws.lock().poll_close_unpin(cx);
-                Poll::Ready(())
-            })
-            .await;
-        }
-        // The above line only closes the `Sink`. Before we terminate connections,
+            // This will flush the remaining frames already queued for sending as well
+            if should_close_sink {
+                poll_fn(|cx| self.ws.lock().poll_close_unpin(cx)).await.ok();
+            } else {
+                // The connection failed. The transport may never be able to flush again
+                // (e.g. the peer stopped reading), so closing it is best-effort: try once
+                // and go on to release everything that is pending on our side.
+                poll_fn(|cx| {
+                    let _ = self.ws.lock().poll_close_unpin(cx);
+                    Poll::Ready(())
+                })
+                .await;
+            }
+        };
+        // The above only closes the `Sink`. Before we terminate connections,
         // we dispatch the remaining frames in the `Source` to our streams.
         // This waits for the peer to end the stream, so only do it if the connection
         // is winding down in an orderly way; otherwise the peer may never answer.
-        while should_drain_source {
-            let Some(Ok(msg)) = poll_fn(|cx| self.ws.lock().poll_next_unpin(cx)).await else {
-                break;
-            };
-            debug!("processing remaining message after closure {msg:?}");
-            self.process_message(msg, true).await.ok();
-        }
+        // We keep reading while the `Sink` is being flushed, not only afterwards: the peer
+        // may be winding down as well, and if neither side reads until all of its own frames
+        // are out, both wait forever once the transport is full in both directions.
+        let drain_source = async {
+            while should_drain_source {
+                let Some(Ok(msg)) = poll_fn(|cx| self.ws.lock().poll_next_unpin(cx)).await else {
+                    break;
+                };
+                debug!("processing remaining message after closure {msg:?}");
+                self.process_message(msg, true).await.ok();
+            }
+        };
+        futures_util::future::join(flush_and_close_sink, drain_source).await;
         // Finally, we send EOF to all established streams.
         self.flows.write().drain().for_each(|(flow_id, slot)| {
             self.close_flow_local(slot, flow_id, true);
